@@ -14,7 +14,7 @@
     drain loop always suffices, so every event ends at rest and [sreach] -- the
     states reachable from a fresh session by any events -- are all at rest. *)
 From Coq Require Import List NArith Bool Arith Lia.
-From SV Require Import Common.Slab C19.Model C19.Proofs C19.Shell C19.ShellProofs C19.ShellSticky.
+From SV Require Import Common.Slab C19.Model C19.Proofs C19.Shell C19.ShellProofs C19.ShellSticky C19.Routing.
 Import ListNotations.
 
 Inductive sreach (hash : bool -> addr -> N) : shell -> Prop :=
@@ -170,6 +170,130 @@ Proof.
   destruct (admission_buffers hash m1 now src p HI1 Hlen) as (Hf & _); auto; try (rewrite Ec; assumption).
   exists (admit_flow m1 src p now). split; [exact Hf|]. split; reflexivity.
 Qed.
+
+(* ------------------------------------------------------------------ *)
+(** The routing lifecycle of the listener ([C19/Routing.v]: AddUdpFrontend / RemoveUdpFrontend / AddCluster /
+    RemoveCluster / UpdateUdpListener in udp.rs).
+
+    A manager whose configuration names no cluster forwards NOTHING from clients, not even on a live flow (the
+    check comes before the table lookup, manager.rs [on_client_datagram]): the datagram is dropped, the state is
+    untouched, no backend is selected, no socket is asked for. *)
+Theorem unrouted_listener_forwards_nothing :
+  forall hash m now src p, c_cluster (m_cluster m) = [] ->
+    fst (step hash m now (IClient src p)) = m /\
+    exists r, snd (step hash m now (IClient src p)) = drop_datagram r.
+Proof.
+  intros hash m now src p H. unfold step, on_client_datagram.
+  destruct (N.ltb (m_max_rx m) (N.of_nat (length p))); [split; [reflexivity | eexists; reflexivity]|].
+  rewrite H. split; [reflexivity | eexists; reflexivity].
+Qed.
+
+(** RemoveUdpFrontend, and RemoveCluster of the cluster the listener routes to, leave the manager in that state
+    whatever it was before, and keep every live flow (they idle out; replies still return). *)
+Theorem remove_front_unroutes_and_spares_flows :
+  forall hash p m now,
+    let m' := feed hash m now (snd (px_remove_front p)) in
+    c_cluster (m_cluster m') = [] /\ m_flows m' = m_flows m /\ m_table m' = m_table m /\
+    px_cluster (fst (px_remove_front p)) = None /\ px_cache (fst (px_remove_front p)) = px_cache p.
+Proof. intros. repeat split. Qed.
+
+Theorem remove_cluster_unroutes_and_forgets_knobs :
+  forall hash p c m now, px_route p = Some c ->
+    let m' := feed hash m now (snd (px_remove_cluster p c)) in
+    c_cluster (m_cluster m') = [] /\ m_flows m' = m_flows m /\ m_table m' = m_table m /\
+    cache_get (px_cache (fst (px_remove_cluster p c))) c = None.
+Proof.
+  intros hash p c m now Hr. unfold px_remove_cluster. rewrite Hr, cid_eqb_refl. simpl.
+  repeat split. rewrite cache_get_remove, cid_eqb_refl. reflexivity.
+Qed.
+
+(** AddCluster and AddUdpFrontend arrive in either order: on a listener without a frontend both orders leave
+    the same proxy state and the same manager configuration -- the cluster's own block, the listener's timeouts. *)
+Theorem cluster_and_frontend_commute :
+  forall hash p c u m now, px_cluster p = None -> px_route p = None ->
+    let '(p1, i1) := px_add_cluster p c u in let '(p2, i2) := px_add_front p1 c in
+    let '(q1, j1) := px_add_front p c in let '(q2, j2) := px_add_cluster q1 c u in
+    p2 = q2 /\ feed hash m now (i1 ++ i2) = feed hash m now (j1 ++ j2) /\
+    m_cluster (feed hash m now (i1 ++ i2)) =
+      cluster_config_for c (px_front p * 1000) (px_back p * 1000) u.
+Proof.
+  intros hash p c u m now Hc Hr. unfold px_add_cluster, px_add_front. rewrite Hr. simpl.
+  rewrite cid_eqb_refl. simpl. unfold px_cfg. simpl. rewrite cache_get_set, cid_eqb_refl.
+  repeat split.
+Qed.
+
+(** RemoveUdpFrontend then AddUdpFrontend of the same cluster brings back the configuration the manager had
+    (the cached block survives the removal of the frontend). *)
+Theorem frontend_round_trip_restores_config :
+  forall hash p c m now, px_cluster p = Some c ->
+    let '(p1, i1) := px_remove_front p in let '(p2, i2) := px_add_front p1 c in
+    m_cluster (feed hash m now (i1 ++ i2)) = px_cfg p.
+Proof. intros hash p c m now Hc. unfold px_cfg. simpl. rewrite Hc. reflexivity. Qed.
+
+(** UpdateUdpListener: the three values committed are the patched timeouts (in the configuration new flows
+    capture), the effective cap, and the rx size clamped to the global buffer size; every live flow, the table
+    and the armed timer are left alone (existing flows keep the configuration they captured). *)
+Theorem listener_patch_commits_and_spares_live_flows :
+  forall hash p pa m now,
+    let p' := fst (px_update_listener p pa) in
+    let m' := feed hash m now (snd (px_update_listener p pa)) in
+    m_flows m' = m_flows m /\ m_table m' = m_table m /\ m_armed m' = m_armed m /\
+    m_cluster m' = px_cfg p' /\
+    c_front (m_cluster m') = (match pa_front pa with Some v => v | None => px_front p end * 1000)%N /\
+    m_max_flows m' = effective_max_flows (px_max_flows p') (px_max_conn p) (px_auto p) /\
+    m_max_rx m' = px_max_rx p' /\
+    (px_buffer_size p <> 0%N -> (m_max_rx m' <= px_buffer_size p)%N).
+Proof.
+  intros hash p pa m now p' m'. subst p' m'. unfold px_update_listener. simpl.
+  repeat split.
+  - unfold px_cfg, cluster_config_for. simpl. destruct (cache_get _ _); reflexivity.
+  - unfold clamp_max_rx. destruct (N.eqb (px_buffer_size p) 0); [reflexivity|]. lia.
+  - intros Hb. unfold clamp_max_rx. apply N.eqb_neq in Hb. rewrite Hb. lia.
+Qed.
+
+Theorem effective_max_flows_spec :
+  forall configured headroom auto,
+    (configured <> 0 -> effective_max_flows configured headroom auto = configured)%N /\
+    (configured = 0 -> headroom <> 0 ->
+       1 <= effective_max_flows configured headroom auto <= N.max headroom 1)%N.
+Proof.
+  intros c h a. unfold effective_max_flows. split.
+  - intros H. apply N.eqb_neq in H. rewrite H. reflexivity.
+  - intros -> H. apply N.eqb_neq in H. simpl. rewrite H. lia.
+Qed.
+
+(** as the code is: RemoveCluster leaves [listener.cluster_id], so a later UpdateUdpListener routes the
+    listener to the removed cluster's name again, with the default knobs *)
+Theorem listener_patch_after_remove_cluster_routes_again :
+  forall hash p c pa m now, px_cluster p = Some c -> px_route p = Some c ->
+    let '(p1, i1) := px_remove_cluster p c in let '(p2, i2) := px_update_listener p1 pa in
+    m_cluster (feed hash m now (i1 ++ i2)) =
+      mkcfg c false 0 0 (px_front p2 * 1000) (px_back p2 * 1000) false false.
+Proof.
+  intros hash p c pa m now Hc Hr. unfold px_remove_cluster, px_update_listener. rewrite Hr, cid_eqb_refl. simpl.
+  unfold px_cfg. simpl. rewrite Hc, cache_get_remove, cid_eqb_refl. reflexivity.
+Qed.
+
+Example routing_nonvacuous :
+  let hash := fun (_ : bool) (_ : addr) => 0%N in
+  let c := [99]%N in
+  let u := mkudp (Some true) (Some 0%N) (Some 0%N) (Some false) (Some false) in
+  let p0 := mkproxy 30 30 4 1500 None None [] 16393 10000 1024 in
+  let '(p1, i1) := px_add_cluster p0 c (Some u) in
+  let '(p2, i2) := px_add_front p1 c in
+  let m0 := feed hash (mgr_new default_cfg 4 1500) 0 (i1 ++ i2) in
+  let src := mkaddr [127;0;0;2]%N 10000%N in
+  let m1 := fst (step hash m0 1 (IClient src [1]%N)) in
+  let m2 := fst (step hash m1 1 (IResolved 0 [98]%N (mkaddr [127;0;0;1]%N 5000%N))) in
+  let m3 := feed hash m2 2 (snd (px_remove_front p2)) in
+  px_cluster p0 = None /\ px_route p2 = Some c /\ slen (m_flows m2) = 1 /\
+  In (Some 0%N, SendToBackend (mkaddr [127;0;0;1]%N 5000%N) [2]%N) (snd (step hash m2 2 (IClient src [2]%N))) /\
+  snd (step hash m3 2 (IClient src [2]%N)) = drop_datagram DNoBackend /\ slen (m_flows m3) = 1 /\
+  m_max_flows (feed hash m3 2 (snd (px_update_listener (fst (px_remove_front p2))
+                                     (mkpatch (Some 1%N) None (Some 99999%N) (Some 0%N))))) = 1024%N /\
+  m_max_rx (feed hash m3 2 (snd (px_update_listener (fst (px_remove_front p2))
+                                     (mkpatch (Some 1%N) None (Some 99999%N) (Some 0%N))))) = 16393%N.
+Proof. vm_compute. repeat split. right; left; reflexivity. Qed.
 
 (** [WriteQueue]: one drain puts on the wire an in-order, duplicate-free selection
     of a prefix of the queue (hard errors drop, the first WouldBlock stops) and
